@@ -211,19 +211,41 @@ def run(rep, tier):
     got = lr.simplify(T.parse(['PML_CONST', 'PML_TIMES', "'('", 'PML_CONST', 'PML_PLUS', 'PML_CONST', "')'"]))
     rep.check(got == ('bin', 'PML_TIMES', 'PML_CONST', ('paren', ('bin', 'PML_PLUS', 'PML_CONST', 'PML_CONST'))), 'R17.1', 'parentheses', TAB, 'c * (c + c) groups as %s' % show(got))
     if tier == 'thorough':
+        # an LALR(1) precedence parser decides pairwise: with `x` on the stack and `y` as look-ahead it reduces iff `c x c y c` groups to
+        # the left.  The triples therefore add nothing to the pairs unless the tables are inconsistent: every triple must group as the
+        # pairwise decisions predict; deviations from Promela/C that follow from a reported pair are not reported again.
+        left = {}
+        for a, b in itertools.product(OPS, OPS):
+            t = lr.simplify(T.parse(['PML_CONST', a, 'PML_CONST', b, 'PML_CONST']))
+            left[(a, b)] = isinstance(t, tuple) and t[0] == 'bin' and t[1] == b
+
+        def predicted(ops):
+            out, stack = ['PML_CONST'], []
+            def reduce_():
+                op = stack.pop()
+                r = out.pop()
+                l = out.pop()
+                out.append(('bin', op, l, r))
+            for o in ops:
+                while stack and left[(stack[-1], o)]:
+                    reduce_()
+                stack.append(o)
+                out.append('PML_CONST')
+            while stack:
+                reduce_()
+            return out[0]
         n3 = 0
         for a, b, c in itertools.product(OPS, OPS, OPS):
             n3 += 1
             got = lr.simplify(T.parse(['PML_CONST', a, 'PML_CONST', b, 'PML_CONST', c, 'PML_CONST']))
+            pred = predicted([a, b, c])
+            if got != pred:
+                rep.fail('R17.1', '%s,%s,%s' % (a, b, c), TAB, 'c %s c %s c %s c groups as %s, which the pairwise decisions of the same tables do not predict (%s)' % (SPELL[a], SPELL[b], SPELL[c], show(got), show(pred)))
+                continue
             want = ref_tree([a, b, c])
-            if got == want:
-                continue
-            if (a, b) in bad_pairs:
-                continue      # consequence of an already reported pair
-            if (b, c) in bad_pairs:
-                continue
-            rep.fail('R17.1', '%s,%s,%s' % (a, b, c), TAB, 'c %s c %s c %s c groups as %s; Promela/C: %s' % (SPELL[a], SPELL[b], SPELL[c], show(got), show(want)))
-        rep.ok('R17.1', 'triples', '%d operator triples walked through the tables' % n3)
+            if got != want and not bad_pairs:
+                rep.fail('R17.1', '%s,%s,%s' % (a, b, c), TAB, 'c %s c %s c %s c groups as %s; Promela/C: %s' % (SPELL[a], SPELL[b], SPELL[c], show(got), show(want)))
+        rep.ok('R17.1', 'triples', '%d operator triples group as the pairwise decisions predict' % n3)
         rep.covered(triples=n3)
     # grammar source vs shipped tables (drift is reported as note: the build compiles the tables, not the .ypp)
     try:
